@@ -1,10 +1,17 @@
 import EinxModel.Props.C08
 import EinxModel.Proofs.DenoteDefined
+import EinxModel.Proofs.DenoteReducePerm
 /-!
 C08 (continued) — gaps of `Props/C08.lean` closed by work package c08.
 
 * (a) definedness of the output-permuted operation: `denote_permute_output_defined`,
       `denote_permute_output_tensor_full`, `denote_permute_output_expr_full`, `denoteId_permute_output_full`
+* (b) `Cell.cmp` is a linear order, `sortCells` / `mkRed` are normal forms of the multiset of cells:
+      `cell_cmp_linear_order`, `sortCells_multiset_normal_form`, `mkRed_multiset`; `denote_reduce_bracket_order`
+* (d) reductions (executable loop form `Denote.denoteReduce`): tie `denoteReduce_fun_agree`; input permutation
+      `denote_reduce_permute_input` (+ `_sem`: every interpretation with permutation-invariant reductions), output
+      permutation incl. definedness `denote_reduce_permute_output`, parentheses `denote_reduce_regroup_input/_output`;
+      `denoteId_regroup_input/_output` (the regrouping laws of `C08` on expressions, loop form)
 -/
 namespace Einx.C08b
 open Einx Einx.IR Einx.Denote Einx.C08
@@ -95,5 +102,225 @@ example :
         ∃ plan, planInstr [shapeOf eo] (.transpose 0 [2, 0, 1]) = .ok plan ∧ runPlan symAlg [T] plan = T' :=
   fun T h => denoteId_permute_output_full _ _ _ [2, 0, 1] T (by decide +kernel) (by decide +kernel) (by decide +kernel)
     (by decide +kernel) rfl (by decide +kernel) h
+
+/-! ### (b) `sortCells` is a normal form of the multiset of cells -/
+
+/-- **`Cell.cmp` is a linear order on cells**: oriented, `eq` only on equal cells, and transitive (on `≤` = "not
+`gt`").  Proved by mutual structural induction over cells and argument lists (`Proofs/CellOrder.lean`). -/
+theorem cell_cmp_linear_order :
+    (∀ a b : Cell, Cell.cmp b a = (Cell.cmp a b).swap) ∧ (∀ a b : Cell, Cell.cmp a b = .eq → a = b) ∧
+    (∀ a b c : Cell, Cell.cmp a b ≠ .gt → Cell.cmp b c ≠ .gt → Cell.cmp a c ≠ .gt) :=
+  ⟨Cell.cmp_swap, Cell.cmp_eq, fun _ _ _ h1 h2 => Cell.le_trans h1 h2⟩
+
+/-- **`sortCells` depends on the multiset of cells only**, and returns a permutation of its argument. -/
+theorem sortCells_multiset_normal_form (l1 l2 : List Cell) (h : l1.Perm l2) :
+    sortCells l1 = sortCells l2 ∧ (sortCells l1).Perm l1 :=
+  ⟨sortCells_perm h, sortCells_perm_self l1⟩
+
+/-- **The canonical reduction cell depends on the multiset of the reduced cells only.** -/
+theorem mkRed_multiset (f : String) (l1 l2 : List Cell) (h : l1.Perm l2) : mkRed f l1 = mkRed f l2 :=
+  mkRed_perm f h
+
+/-- Non-vacuity: two different orders of four distinct cells (sources, a literal, an application). -/
+example :
+    let l1 := [Cell.src 0 3, .app "f" [.src 1 0], .lit 2, .src 0 1]
+    let l2 := [Cell.lit 2, .src 0 1, .src 0 3, .app "f" [.src 1 0]]
+    l1.Perm l2 ∧ !Cell.beqL l1 l2 ∧ Cell.beqL (sortCells l1) (sortCells l2) ∧
+      Cell.beq (mkRed "sum" l1) (mkRed "sum" l2) := by
+  exact ⟨List.perm_append_comm (l₁ := [Cell.src 0 3, .app "f" [.src 1 0]]) (l₂ := [Cell.lit 2, .src 0 1]),
+    by decide +kernel, by decide +kernel, by decide +kernel⟩
+
+/-! ### (d) Reductions: the functional form is the loop form -/
+
+/-- **Tie to `Denote/Expr2.lean`.**  For concatenation-free expressions the executable loop form
+`Denote.denoteReduce` (the one the C01 validator uses and the driver runs) and the functional form
+`Denote.denoteReduceFun` (`Denote/Fun2.lean`) succeed on the same operations with the same symbolic tensor. -/
+theorem denoteReduce_fun_agree (f : String) (e eo : Expr) (he : e.concatFree = true) (heo : eo.concatFree = true) :
+    okOpt (denoteReduce f e eo) = okOpt (denoteReduceFun f e eo) :=
+  denoteReduce_eq_fun f e eo he heo
+
+theorem okOpt_denoteReduce (f : String) (e eo : Expr) (he : e.concatFree = true) (heo : eo.concatFree = true) :
+    okOpt (denoteReduce f e eo)
+      = (reduceCells f (rootDims e) (shapeOf e) (rootDims eo) (shapeOf eo)).map (fun cs => (⟨shapeOf eo, cs⟩ : Tensor Cell)) := by
+  rw [denoteReduce_fun_agree f e eo he heo]
+  unfold denoteReduceFun
+  simp only [he, heo, Bool.and_self, Bool.not_true, Bool.false_eq_true, if_false]
+  cases reduceCells f (rootDims e) (shapeOf e) (rootDims eo) (shapeOf eo) <;> rfl
+
+/-- Substitute the tensors `ts` into a symbolic result and sort the arguments of every reduction cell again. -/
+def substResort (ts : List (Tensor Cell)) (t : Tensor Cell) : Tensor Cell :=
+  t.map (fun c => Cell.resort (subst ts c))
+
+/-- **Reordering the root dimensions of the input expression of a reduction -- bracketed or un-bracketed -- while
+transposing the tensor the same way leaves the result unchanged.**  `e'` has the root dimensions of `e` permuted by
+`perm`; the tensor is transposed by numpy (`planInstr [shapeOf e] (.transpose 0 perm)`).  The symbolic result of
+`e' -> eo`, with the transposed tensor substituted and the reduction cells re-canonicalised (`substResort`), *equals*
+the symbolic result of `e -> eo`; one fails iff the other does.  Hypotheses (decidable): concatenation-free; leaf sizes
+consistent per name across input and output; no axis name both bracketed and un-bracketed in the input. -/
+theorem denote_reduce_permute_input (f : String) (e e' eo : Expr) (perm : List Nat)
+    (he : e.concatFree = true) (he' : e'.concatFree = true) (heo : eo.concatFree = true)
+    (hperm : isPermOf perm (rootDims e).length = true) (hp : permuteL perm (rootDims e) = some (rootDims e'))
+    (hcons : consistentB (Dim.leavesL (rootDims e) ++ Dim.leavesL (rootDims eo)) = true)
+    (hms : markSepB (Dim.leavesL (rootDims e)) = true) :
+    ∃ plan, planInstr [shapeOf e] (.transpose 0 perm) = .ok plan ∧ plan.shape = shapeOf e' ∧
+      (okOpt (denoteReduce f e' eo)).map (substResort [⟨plan.shape, plan.cells⟩]) = okOpt (denoteReduce f e eo) := by
+  have hlen : (viewShape (rootDims e)).length = (rootDims e).length := by simp [viewShape]
+  obtain ⟨plan, hplan, hshape, _, _⟩ :=
+    transpose_plan_ok [shapeOf e] 0 (viewShape (rootDims e)) perm rfl (by rw [hlen]; exact hperm)
+  have hs : plan.shape = shapeOf e' := by
+    have := viewShape_permute hp
+    rw [hshape] at this
+    exact Option.some.inj this
+  refine ⟨plan, hplan, hs, ?_⟩
+  rw [okOpt_denoteReduce f e' eo he' heo, okOpt_denoteReduce f e eo he heo]
+  have := reduceCells_permute_input (f := f) (sw := shapeOf eo) hperm hp (rootDims_concatFree he)
+    (consistentB_spec hcons) (markSepB_spec hms) hplan
+  rw [shapeOf_eq e, ← this, shapeOf_eq e']
+  cases reduceCells f (rootDims e') (viewShape (rootDims e')) (rootDims eo) (shapeOf eo) <;> rfl
+
+/-- **Reordering the bracketed axes of a reduction** (`denote_reduce_bracket_order`).  For every assignment `σ` of
+the output axes, the list of input elements reduced into the output element of `σ` by the permuted operation (read
+from the transposed tensor) is a *permutation* of the list reduced by the original operation -- the cells are visited
+in another order -- and therefore the canonical reduction cells coincide (`mkRed` sorts by the linear order
+`Cell.cmp`).  Holds for every permutation of the root dimensions, in particular for those that only reorder
+bracketed axes. -/
+theorem denote_reduce_bracket_order (f : String) (v v' w : List Dim) (perm : List Nat) (plan : Plan) (σ : Assign)
+    (hperm : isPermOf perm v.length = true) (hv' : permuteL perm v = some v')
+    (hc : Dim.concatFreeL v = true) (hcons : consistentB (Dim.leavesL v ++ Dim.leavesL w) = true)
+    (hms : markSepB (Dim.leavesL v) = true) (hplan : planInstr [viewShape v] (.transpose 0 perm) = .ok plan)
+    (hσ : σ ∈ outAssignments w) :
+    (redArgs v' (viewShape v') σ = none ∧ redArgs v (viewShape v) σ = none) ∨
+      ∃ r' r, redArgs v' (viewShape v') σ = some r' ∧ redArgs v (viewShape v) σ = some r ∧
+        (r'.map (subst [⟨plan.shape, plan.cells⟩])).Perm r ∧
+        mkRed f (r'.map (subst [⟨plan.shape, plan.cells⟩])) = mkRed f r := by
+  rcases redArgs_permute_input hperm hv' hc (consistentB_spec hcons) (markSepB_spec hms) hplan hσ with
+    h | ⟨r', r, h1, h2, hp⟩
+  · exact Or.inl h
+  · exact Or.inr ⟨r', r, h1, h2, hp, mkRed_perm f hp⟩
+
+/-- **The same, semantically.**  For every element algebra `A` whose reduction symbols are invariant under
+permutations of their arguments (`RedInvariant`; e.g. integer `sum`, `max`) and every concrete input tensor `x`: the
+permuted reduction evaluated on numpy's transpose of `x` returns the same values as the original reduction on `x`. -/
+theorem denote_reduce_permute_input_sem {α : Type} (A : Alg α) (hA : RedInvariant A) (x : Tensor α)
+    (f : String) (e e' eo : Expr) (perm : List Nat)
+    (he : e.concatFree = true) (he' : e'.concatFree = true) (heo : eo.concatFree = true)
+    (hperm : isPermOf perm (rootDims e).length = true) (hp : permuteL perm (rootDims e) = some (rootDims e'))
+    (hcons : consistentB (Dim.leavesL (rootDims e) ++ Dim.leavesL (rootDims eo)) = true)
+    (hms : markSepB (Dim.leavesL (rootDims e)) = true) :
+    ∃ plan, planInstr [shapeOf e] (.transpose 0 perm) = .ok plan ∧
+      (okOpt (denoteReduce f e' eo)).map (fun t => t.data.map (evalCell A [runPlan A [x] plan]))
+        = (okOpt (denoteReduce f e eo)).map (fun t => t.data.map (evalCell A [x])) := by
+  have hlen : (viewShape (rootDims e)).length = (rootDims e).length := by simp [viewShape]
+  obtain ⟨plan, hplan, _, _, _⟩ :=
+    transpose_plan_ok [shapeOf e] 0 (viewShape (rootDims e)) perm rfl (by rw [hlen]; exact hperm)
+  refine ⟨plan, hplan, ?_⟩
+  rw [okOpt_denoteReduce f e' eo he' heo, okOpt_denoteReduce f e eo he heo]
+  have := reduceCells_permute_input_sem hA x (f := f) (sw := shapeOf eo) hperm hp (rootDims_concatFree he)
+    (consistentB_spec hcons) (markSepB_spec hms) hplan
+  simp only [Option.map_map, Function.comp_def]
+  rw [shapeOf_eq e, shapeOf_eq e']
+  exact this
+
+/-- Integer interpretation with `red:sum` = sum of the arguments (every other symbol: 0). -/
+def sumAlg : Alg Int := { lit := id, bad := 0, app := fun g xs => if g = "red:sum" then xs.sum else 0 }
+
+theorem sumAlg_redInvariant : RedInvariant sumAlg := by
+  intro g xs ys h
+  simp only [sumAlg]
+  split
+  · exact h.sum_eq
+  · rfl
+
+/-- Non-vacuity of the input laws: `sum: a [b c] d -> d a` with a = b = c = 2, d = 1 (equal lengths on different axes,
+a length-1 axis), the input permuted by `[3, 2, 0, 1]` to `d [c] a [b]` (bracketed axes reordered *and* moved).  All
+hypotheses hold; the permuted operation yields different cells; after substituting the transposed tensor and
+re-canonicalising they are the original cells, which are genuine four-element reductions. -/
+example :
+    let a := Expr.axis "a" 2; let b := Expr.axis "b" 2; let c := Expr.axis "c" 2; let d := Expr.axis "d" 1
+    let e := Expr.list [a, .br (.list [b, c]), d]; let e' := Expr.list [d, .br c, a, .br b]
+    let eo := Expr.list [d, a]
+    e.concatFree = true ∧ e'.concatFree = true ∧ eo.concatFree = true ∧
+    isPermOf [3, 2, 0, 1] (rootDims e).length = true ∧
+    (permuteL [3, 2, 0, 1] (rootDims e)).map viewShape = some (viewShape (rootDims e')) ∧
+    consistentB (Dim.leavesL (rootDims e) ++ Dim.leavesL (rootDims eo)) = true ∧
+    markSepB (Dim.leavesL (rootDims e)) = true ∧
+    (match planInstr [shapeOf e] (.transpose 0 [3, 2, 0, 1]), okOpt (denoteReduce "sum" e' eo),
+        okOpt (denoteReduce "sum" e eo) with
+      | .ok plan, some t', some t =>
+        Tensor.beq (substResort [⟨plan.shape, plan.cells⟩] t') t && !Tensor.beq t' t &&
+          !Tensor.beq (t'.map (subst [⟨plan.shape, plan.cells⟩])) t &&
+          Cell.beqL t.data [.app "red:sum" [.src 0 0, .src 0 1, .src 0 2, .src 0 3],
+            .app "red:sum" [.src 0 4, .src 0 5, .src 0 6, .src 0 7]]
+      | _, _, _ => false) = true := by
+  decide +kernel
+
+example :
+    let a := Expr.axis "a" 2; let b := Expr.axis "b" 2; let c := Expr.axis "c" 2; let d := Expr.axis "d" 1
+    let e := Expr.list [a, .br (.list [b, c]), d]; let e' := Expr.list [d, .br c, a, .br b]
+    let eo := Expr.list [d, a]
+    ∃ plan, planInstr [shapeOf e] (.transpose 0 [3, 2, 0, 1]) = .ok plan ∧ plan.shape = shapeOf e' ∧
+      (okOpt (denoteReduce "sum" e' eo)).map (substResort [⟨plan.shape, plan.cells⟩]) = okOpt (denoteReduce "sum" e eo) :=
+  denote_reduce_permute_input "sum" _ _ _ [3, 2, 0, 1] (by decide +kernel) (by decide +kernel) (by decide +kernel)
+    (by decide +kernel) rfl (by decide +kernel) (by decide +kernel)
+
+/-- Non-vacuity of the semantic law: `sumAlg` is permutation invariant, and on the input `0..7` the two reductions
+return `[6, 22]`. -/
+example :
+    let a := Expr.axis "a" 2; let b := Expr.axis "b" 2; let c := Expr.axis "c" 2; let d := Expr.axis "d" 1
+    let e := Expr.list [a, .br (.list [b, c]), d]; let e' := Expr.list [d, .br c, a, .br b]
+    let eo := Expr.list [d, a]
+    let x : Tensor Int := ⟨[2, 2, 2, 1], [0, 1, 2, 3, 4, 5, 6, 7]⟩
+    RedInvariant sumAlg ∧
+    (match planInstr [shapeOf e] (.transpose 0 [3, 2, 0, 1]), okOpt (denoteReduce "sum" e' eo),
+        okOpt (denoteReduce "sum" e eo) with
+      | .ok plan, some t', some t =>
+        t'.data.map (evalCell sumAlg [runPlan sumAlg [x] plan]) == [6, 22] &&
+          t.data.map (evalCell sumAlg [x]) == [6, 22] && (runPlan sumAlg [x] plan).data == [0, 2, 4, 6, 1, 3, 5, 7]
+      | _, _, _ => false) = true :=
+  ⟨sumAlg_redInvariant, by decide +kernel⟩
+
+/-! ### (d) Reductions: permuting the output expression -/
+
+/-- **Reordering the axes of the output expression of a reduction permutes the result's dimensions accordingly**,
+including definedness: if `e -> eo` is defined with result `T`, and the root dimensions of the concatenation-free
+`eo'` are those of `eo` permuted by `perm`, then `e -> eo'` is defined and its result is the IR's plan of numpy's
+`transpose(T, perm)` run on `T`. -/
+theorem denote_reduce_permute_output (f : String) (e eo eo' : Expr) (perm : List Nat) (T : Tensor Cell)
+    (he : e.concatFree = true) (heo : eo.concatFree = true) (heo' : eo'.concatFree = true)
+    (hperm : isPermOf perm (rootDims eo).length = true) (hp : permuteL perm (rootDims eo) = some (rootDims eo'))
+    (hcons : consistentB (Dim.leavesL (rootDims eo)) = true)
+    (h : okOpt (denoteReduce f e eo) = some T) :
+    ∃ T', okOpt (denoteReduce f e eo') = some T' ∧
+      ∃ plan, planInstr [shapeOf eo] (.transpose 0 perm) = .ok plan ∧ runPlan symAlg [T] plan = T' := by
+  rw [okOpt_denoteReduce f e eo he heo] at h
+  rw [okOpt_denoteReduce f e eo' he heo']
+  cases hcs : reduceCells f (rootDims e) (shapeOf e) (rootDims eo) (shapeOf eo) with
+  | none => simp [hcs] at h
+  | some cs =>
+    simp only [hcs, Option.map_some, Option.some.injEq] at h
+    subst h
+    obtain ⟨cs', h', plan, hplan, hrun⟩ := genCells_permute_output_full (redX_getInvariant f (rootDims e) (shapeOf e))
+      hperm hp (rootDims_concatFree heo) (consistentB_spec hcons) hcs
+    have h'' : reduceCells f (rootDims e) (shapeOf e) (rootDims eo') (shapeOf eo') = some cs' := h'
+    exact ⟨⟨shapeOf eo', cs'⟩, by rw [h'']; rfl, plan, hplan, hrun⟩
+
+/-- Non-vacuity: `sum: a [b c] d -> d a` (sizes 2, 2, 2, 1) towards the permuted output `a d`: hypotheses hold and the
+two results differ in shape. -/
+example :
+    let a := Expr.axis "a" 2; let b := Expr.axis "b" 2; let c := Expr.axis "c" 2; let d := Expr.axis "d" 1
+    let e := Expr.list [a, .br (.list [b, c]), d]; let eo := Expr.list [d, a]; let eo' := Expr.list [a, d]
+    ∀ T, okOpt (denoteReduce "sum" e eo) = some T →
+      ∃ T', okOpt (denoteReduce "sum" e eo') = some T' ∧
+        ∃ plan, planInstr [shapeOf eo] (.transpose 0 [1, 0]) = .ok plan ∧ runPlan symAlg [T] plan = T' :=
+  fun T h => denote_reduce_permute_output "sum" _ _ _ [1, 0] T (by decide +kernel) (by decide +kernel)
+    (by decide +kernel) (by decide +kernel) rfl (by decide +kernel) h
+
+example :
+    let a := Expr.axis "a" 2; let b := Expr.axis "b" 2; let c := Expr.axis "c" 2; let d := Expr.axis "d" 1
+    let e := Expr.list [a, .br (.list [b, c]), d]; let eo := Expr.list [d, a]; let eo' := Expr.list [a, d]
+    (match okOpt (denoteReduce "sum" e eo), okOpt (denoteReduce "sum" e eo') with
+      | some t, some t' => t.shape == [1, 2] && t'.shape == [2, 1] && Cell.beqL t.data t'.data
+      | _, _ => false) = true := by
+  decide +kernel
 
 end Einx.C08b
